@@ -316,7 +316,16 @@ class ValueSpecBase(ValueSpec):
                 root_path,
             )
         )
-      value = converter(value)
+      try:
+        value = converter(value)
+      except OverflowError as e:
+        # E.g. an int that is too large for a float.
+        raise ValueError(
+            utils.message_on_path(
+                f'Cannot convert {type(value)!r} to {self.value_type}: {e}',
+                root_path,
+            )
+        ) from e
 
     # NOTE(daiyip): child nodes validation and transformation is done before
     # parent nodes, which makes sure when child_transform is called on current
